@@ -19,9 +19,9 @@ OPTIONAL = list("~!$&'()*+,;=:@?-._") + list("abm01")
 
 LEAVES = [{"type": "string"}, {"type": "integer"}, {"type": "object"}, {"type": "array"}, {"type": "boolean"},
           {"type": "null"}, {"enum": [1, "a"]}, {"enum": [None]}, {"minimum": 2}, {"maximum": 0}, {"maxLength": 1},
-          {"minLength": 2}, {"minItems": 1}, {"maxItems": 0}, {"pattern": "^a"}, {"type": ["string", "null"]}]
+          {"minLength": 2}, {"minItems": 1}, {"maxItems": 0}, {"pattern": "^a"}, {"type": ["string", "null"]}, {"uniqueItems": True}]
 leaf = st.sampled_from(LEAVES).map(copy.deepcopy)
-INST_SCALARS = [None, True, False, 0, 1, 2, 3, -1, 1.5, "", "a", "ab", "b", "abc"]
+INST_SCALARS = [None, True, False, 0, 1, 2, 3, -1, 1.5, "", "a", "ab", "b", "abc", 3, 2, 1, "b", "a"]
 inst_scalar = st.sampled_from(INST_SCALARS)
 inst_keys = st.sampled_from(["a", "b", "c", "k", ""])
 
